@@ -95,9 +95,33 @@ func c19Conc(ctx *core.Ctx, res *core.Result) {
 				c19Violation(res, ev, sig, msg)
 				mu.Unlock()
 			}
-			if !waitFile(filepath.Join(ctrl, "paused"), 120*time.Second) {
-				// the run ended before step k (fewer steps on this path)
-				waitExit(first, 180*time.Second)
+			done := make(chan int, 1)
+			go func() {
+				code := 0
+				if err := first.Wait(); err != nil {
+					code = -1
+					if ee, ok := err.(*exec.ExitError); ok {
+						code = ee.ExitCode()
+					}
+				}
+				done <- code
+			}()
+			paused := false
+			for end := time.Now().Add(180 * time.Second); time.Now().Before(end); {
+				if _, err := os.Stat(filepath.Join(ctrl, "paused")); err == nil {
+					paused = true
+					break
+				}
+				select {
+				case <-done:
+					return // the run ended before step k (fewer steps on this path)
+				default:
+					time.Sleep(5 * time.Millisecond)
+				}
+			}
+			if !paused {
+				syscall.Kill(-first.Process.Pid, syscall.SIGKILL)
+				add("concurrent:first-hangs", "first run neither reached its pause point nor ended")
 				return
 			}
 			// did the first already execute 'flock -n 9'?
@@ -111,7 +135,13 @@ func c19Conc(ctx *core.Ctx, res *core.Result) {
 			}
 			second := box.run(0, "second")
 			os.WriteFile(filepath.Join(ctrl, "resume"), []byte("go"), 0644)
-			exit1, to := waitExit(first, 180*time.Second)
+			exit1, to := 0, false
+			select {
+			case exit1 = <-done:
+			case <-time.After(180 * time.Second):
+				to = true
+				syscall.Kill(-first.Process.Pid, syscall.SIGKILL)
+			}
 			mu.Lock()
 			res.Evaluations++
 			res.Nontrivial++
